@@ -142,7 +142,9 @@ def to_events(sc, trace):
                 if not ok:
                     curin[who] = i
             elif op == "load":
-                if who == "B" and i == breg:
+                if who == "main":
+                    pass      # the harness reading the shared input again through its surviving handle
+                elif who == "B" and i == breg:
                     if val == "R":
                         evs.append(("R", i, 0))
                         breg += 1
@@ -165,7 +167,7 @@ def to_events(sc, trace):
                 raise MapError("unexpected operation on a callback word: " + t)
         elif loc == "rc":
             i = int(idx)
-            if op == "load":
+            if op == "load" or who == "main":      # main: the harness dropping its surviving handle at the end
                 continue
             if op != "fetch_sub":
                 raise MapError("unexpected operation on a reference counter: " + t)
@@ -447,6 +449,8 @@ def run_job(job):
         if r["fail"]:
             fails.append(r)
             continue
+        if job.get("oracle_only"):
+            continue
         sc = parse_name(r["scenario"])
         if not has_model(sc):
             continue
@@ -486,15 +490,16 @@ def interleaved(evs):
 # ------------------------------------------------------------------------------------------------ the check driver
 
 def compile_parts(cfg, source, name, nparts):
-    """Compile the harness parts (-DWH_PART=k) in parallel; returns {part: exe}."""
+    """Compile the harness parts (-DWH_PART=k) in parallel; returns {part: exe}.  nparts: a count or the list of parts."""
+    parts = list(range(nparts)) if isinstance(nparts, int) else list(nparts)
     vlib.build(cfg)  # once, under its lock, before the parallel harness builds
 
     def comp(p):
         exe, b = vlib.compile_harness(cfg, [source], "%s_p%d" % (name, p), extra=["-DWH_PART=%d" % p])
         return p, exe
 
-    with concurrent.futures.ThreadPoolExecutor(min(nparts, max(2, vlib.NPROC // 2))) as ex:
-        return dict(ex.map(comp, range(nparts)))
+    with concurrent.futures.ThreadPoolExecutor(min(len(parts), max(2, vlib.NPROC // 2))) as ex:
+        return dict(ex.map(comp, parts))
 
 
 def list_scenarios(exes):
@@ -565,7 +570,38 @@ def plan(tier, seed, where, exes, harness, quick_exhaustive=QUICK_EXHAUSTIVE):
     return jobs
 
 
-def run_check(ck, pid, harness, nparts, props, quick_exhaustive=QUICK_EXHAUSTIVE):
+SHARED_HARNESS = "h_when_shared"
+
+
+def plan_shared(tier, seed, where, exes):
+    """Jobs of harness/h_when_shared.cpp (SharedFuture inputs with other consumers): oracle only.
+    Names: <set>/<what>/<form>/<layout>/<arrangement>/<pattern>."""
+    groups = {}
+    for name, p in where.items():
+        pre = name.rsplit("/", 1)[0]
+        groups.setdefault(pre, (p, []))[1].append(name)
+    jobs = []
+    for k, (pre, (p, names)) in enumerate(sorted(groups.items())):
+        arr = pre.split("/")[4]
+        base = dict(exe=exes[p], harness=SHARED_HARNESS, part=p, cfg="/".join(pre.split("/")[:4]), arr=arr, n=2,
+                    names=names, oracle_only=True, timeout=1700)
+        only = ["--only", pre + "/"]
+        if arr == "seq":     # one fiber: the only decision is the order of the steps, all orders
+            passes = [("shared-seq", "before", ["--mode", "dfs", "--max", "5000"])]
+        elif arr == "p":
+            cnt = "150" if tier == "thorough" else "25"
+            passes = [("shared-random@both", "both", ["--mode", "random", "--max", cnt, "--seed", str(seed * 100003 + k * 89)])]
+        elif tier == "thorough":
+            passes = [("shared-pb3", "before", ["--mode", "dfs", "--pb", "3", "--max", "3000"]),
+                      ("shared-pb3@after", "after", ["--mode", "dfs", "--pb", "3", "--max", "3000"])]
+        else:
+            passes = [("shared-pb2@both", "both", ["--mode", "dfs", "--pb", "2", "--max", "1000"])]
+        for mode, ya, args in passes:
+            jobs.append(dict(base, mode=mode, yield_at=ya, args=args + ["--yield-at", ya] + only))
+    return jobs
+
+
+def run_check(ck, pid, harness, nparts, props, quick_exhaustive=QUICK_EXHAUSTIVE, shared_parts=(), shared_sets=()):
     """Everything C09 and C10 have in common."""
     import runner as _r
     t0 = time.time()
@@ -573,7 +609,7 @@ def run_check(ck, pid, harness, nparts, props, quick_exhaustive=QUICK_EXHAUSTIVE
         "FIBER backend: sequentially consistent, fibers switch only at the wrapped yaclib_std operations (memory orders are C04's subject)",
         "model coq/model/When.v: n inputs, each handed off by C01's protocol (the producer's exchange and the builder's SetCallback are events; the builder's pre-check load that returns Empty is not), reference counter, the strategy's atomic word, output promise; which callback object is attached (Single/Static/DynamicCombinator), executors and the consumer of the output future are exercised, not modelled",
         "Any<LastFail>: 2*n < 2^64 (fits size_t), hypothesis [fits] of the theorems",
-        "the input's producer is a plain Promise::Set / SharedPromise::Set; a SharedFuture input is the only callback on its shared state",
+        "the input's producer is a plain Promise::Set / SharedPromise::Set; in the modelled runs a SharedFuture input is the only callback on its shared state; shared inputs with further consumers (a second combinator, a plain continuation) are covered by the oracle-only scenarios of harness/h_when_shared.cpp (coverage.shared_consumers)",
     ]
     ck.cov["trusted_base"] = [
         "Coq 8.16.1 kernel; vm_compute for the in-Coq replay and the Example witnesses",
@@ -587,6 +623,14 @@ def run_check(ck, pid, harness, nparts, props, quick_exhaustive=QUICK_EXHAUSTIVE
     exes = compile_parts("F", src, harness, nparts)
     where = list_scenarios(exes)
     jobs = plan(ck.tier, ck.seed, where, exes, harness, quick_exhaustive)
+    sources = {harness: (src, nparts)}
+    if shared_parts:
+        src2 = os.path.join(vlib.VERIF, "harness", SHARED_HARNESS + ".cpp")
+        sources[SHARED_HARNESS] = (src2, list(shared_parts))
+        exes2 = compile_parts("F", src2, SHARED_HARNESS, shared_parts)
+        where2 = {nm: p for nm, p in list_scenarios(exes2).items() if nm.split("/")[0] in shared_sets}
+        where.update(where2)
+        jobs += plan_shared(ck.tier, ck.seed, where2, exes2)
     replayer = build_replayer()
     results = [None] * len(jobs)
     todo = list(range(len(jobs)))
@@ -597,9 +641,11 @@ def run_check(ck, pid, harness, nparts, props, quick_exhaustive=QUICK_EXHAUSTIVE
         todo = [k for k in todo if results[k].get("missing")]
         if not todo:
             break
-        exes = compile_parts("F", src, harness, nparts)      # rebuilt (the cache entry had been pruned)
-        for k in todo:
-            jobs[k]["exe"] = exes[jobs[k]["part"]]
+        for hname in sorted(set(jobs[k]["harness"] for k in todo)):      # rebuilt (the cache entry had been pruned)
+            rebuilt = compile_parts("F", sources[hname][0], hname, sources[hname][1])
+            for k in todo:
+                if jobs[k]["harness"] == hname:
+                    jobs[k]["exe"] = rebuilt[jobs[k]["part"]]
     if todo:
         raise vlib.BuildError("the harness executables keep disappearing from the build cache (concurrent pruning)")
     t_explore = time.time() - t0
@@ -607,13 +653,16 @@ def run_check(ck, pid, harness, nparts, props, quick_exhaustive=QUICK_EXHAUSTIVE
     # combinator or of the output state), seeded random schedules over every scenario
     asan = None
     if ck.tier == "thorough":
-        fa = compile_parts("FA", src, harness, nparts)
+        fa = {hname: compile_parts("FA", sp[0], hname, sp[1]) for hname, sp in sources.items()}
         fa_jobs = []
-        for k, ((cfg, arr), p) in enumerate(sorted({(j["cfg"], j["arr"]): j["part"] for j in jobs}.items())):
-            fa_jobs.append(dict(exe=fa[p], harness=harness, part=p, cfg=cfg, arr=arr, mode="asan-random",
-                                names=next((j["names"] for j in jobs if j["cfg"] == cfg and j["arr"] == arr), []),
-                                yield_at="both",
-                                args=["--mode", "random", "--max", "12", "--seed", str(ck.seed * 7919 + k),
+        seen = {}
+        for j in jobs:
+            seen.setdefault((j["harness"], j["cfg"], j["arr"]), j)
+        for k, ((hname, cfg, arr), j) in enumerate(sorted(seen.items(), key=lambda kv: kv[0])):
+            fa_jobs.append(dict(exe=fa[hname][j["part"]], harness=hname, part=j["part"], cfg=cfg, arr=arr, mode="asan-random",
+                                names=j["names"], yield_at="both", oracle_only=j.get("oracle_only", False),
+                                args=["--mode", "random", "--max", "12" if hname == harness else "6",
+                                      "--seed", str(ck.seed * 7919 + k),
                                       "--yield-at", "both", "--only", "%s/%s/" % (cfg, arr)], timeout=1700))
         with concurrent.futures.ProcessPoolExecutor(max(2, (vlib.NPROC * 3) // 4)) as ex:
             fa_results = list(ex.map(run_job, fa_jobs, chunksize=1))
@@ -634,6 +683,23 @@ def run_check(ck, pid, harness, nparts, props, quick_exhaustive=QUICK_EXHAUSTIVE
             m["executions"] += h["executions"]
             m["exhaustive"] += 1 if h["exhaustive"] else 0
     ck.cov["exploration"] = by_mode
+    if shared_parts:
+        sh = [m for k, m in by_mode.items() if k.startswith("shared")]
+        ck.cov["shared_consumers"] = dict(
+            harness="harness/%s.cpp" % SHARED_HARNESS, sets=list(shared_sets),
+            scenarios=sum(m["scenarios"] for m in sh), executions=sum(m["executions"] for m in sh),
+            level="oracle only",
+            note=("SharedFuture inputs that have other consumers: two combinators over a common shared input (layouts (a,b)+(a,c), "
+                  "(a,b)+(c,a), (a,b)+(b,a); variadic and iterator form) and a combinator next to a plain SubscribeInline continuation "
+                  "attached before or concurrently.  Each combinator is judged by the same oracle as alone, the other consumer must fire "
+                  "exactly once, every shared state / combinator / output state must be freed exactly once.  In terms of When.v the pair is "
+                  "two instances of the transition system that synchronise on the shared input: one EComplete and ONE exchange of its "
+                  "callback word, which is EXchg in both instances (old = WC for the instances whose callback is in the list at that "
+                  "moment, WE for the others, which then see EReg false), after which the producer's thread runs the consume steps of the "
+                  "listed instances one after the other in list order; the instances share nothing else, so every theorem of the "
+                  "property holds for each instance PROVIDED the shared state's callback list delivers each registered callback exactly "
+                  "once with its own input - that proviso (C06's subject, and the place where a callback object registered on two inputs "
+                  "breaks) is what these scenarios test; their traces are not replayed through When.run"))
     dfs = [m for k, m in by_mode.items() if k in ("dfs", "dfs@after")]
     ck.cov["exhaustive"] = bool(dfs) and all(m["scenarios"] > 0 and m["exhaustive"] == m["scenarios"] for m in dfs)
     for job, r in zip(jobs, results):
@@ -641,14 +707,14 @@ def run_check(ck, pid, harness, nparts, props, quick_exhaustive=QUICK_EXHAUSTIVE
         if r["crash"]:
             ck.hits.append(dict(what="%s: harness crashed (rc=%s) %s" % (job["cfg"], r["crash"]["rc"], r["crash"]["text"][-600:]),
                                 key="crash:" + job["cfg"].split("/")[0],
-                                replay=dict(harness=harness, config=config, part=job["part"], args=job["args"],
+                                replay=dict(harness=job["harness"], config=config, part=job["part"], args=job["args"],
                                             scenario=r["crash"].get("scenario"), choices=r["crash"]["choices"],
                                             yield_at=job.get("yield_at", "before"))))
         for f in r["fails"]:
-            sc = parse_name(f["scenario"])
+            kind = f["scenario"].split("/")[1] if job.get("oracle_only") else parse_name(f["scenario"])["kind"]
             ck.hits.append(dict(what="%s: %s" % (f["scenario"], f["fail"]),
-                                key=sc["kind"] + ":" + re.sub(r"\d+", "N", f["fail"])[:48].replace(" ", "_"),
-                                replay=dict(harness=harness, config=config, part=job["part"], scenario=f["scenario"],
+                                key=kind + ":" + re.sub(r"\d+", "N", f["fail"])[:48].replace(" ", "_"),
+                                replay=dict(harness=job["harness"], config=config, part=job["part"], scenario=f["scenario"],
                                             choices=f["choices"], trace=f["trace"], yield_at=job.get("yield_at", "before"))))
         for e in r["maperr"][:3]:
             ck.gen_obligation("correspondence When (trace vocabulary) on %s" % e["scenario"], False,
@@ -739,6 +805,7 @@ def replay_hit(ck, path, harness, nparts):
     if not rp.get("scenario") and not rp.get("args"):
         print("nothing to replay: %s" % json.dumps(d)[:2000])
         return 0
+    harness = rp.get("harness") or harness
     src = os.path.join(vlib.VERIF, "harness", harness + ".cpp")
     part = rp.get("part", 0)
     exe, b = vlib.compile_harness(rp.get("config", "F"), [src], "%s_p%d" % (harness, part), extra=["-DWH_PART=%d" % part])
